@@ -497,3 +497,35 @@ Lemma nonvacuous_evals :
   eval Neg false 0 (OInt U8 127) ONull = RInt I8 (-127) /\
   eval Plus false 0 (ODec 15 1) (ODec 225 2) = RDec 375 2.
 Proof. repeat split; vm_compute; reflexivity. Qed.
+
+(* ---------- ABS and SIGN ---------- *)
+Definition carrier_half (t : ity) : Z :=
+  match go_carrier t with I8 => 128 | I16 => 32768 | I32 => 2147483648 | _ => two63 end.
+
+Theorem abs_exact t z :
+  in_range t z ->
+  (unsigned t = true -> absf (OInt t z) = RInt (go_carrier t) z) /\
+  (unsigned t = false -> z <> - carrier_half t -> absf (OInt t z) = RInt (go_carrier t) (Z.abs z)).
+Proof.
+  intros R. split; intros U.
+  - unfold absf. rewrite U. reflexivity.
+  - intros Hz. unfold absf. rewrite U. f_equal.
+    unfold in_range, ity_min, ity_max, min_i64, max_i64 in R. unfold carrier_half, two63 in Hz.
+    destruct (Z.ltb_spec z 0); [|rewrite Z.abs_eq by lia; reflexivity].
+    rewrite Z.abs_neq by lia.
+    destruct t; cbn [unsigned] in U; try discriminate; unfold wrap_carrier, go_carrier in *;
+      unfold wrap_i8, wrap_i16, wrap_i32, wrap_i64, two63; apply wrapS_id; lia.
+Qed.
+
+Lemma abs_minimum_wraps :
+  absf (OInt I8 (-128)) = RInt I8 (-128) /\ absf (OInt I64 min_i64) = RInt I64 min_i64.
+Proof. split; vm_compute; reflexivity. Qed.
+
+Theorem abs_decimal_exact m s : absf (ODec m s) = RDec (Z.abs m) s.
+Proof. reflexivity. Qed.
+
+Theorem sign_integer_exact t z : signf (OInt t z) = RInt I8 (Z.sgn z).
+Proof. reflexivity. Qed.
+
+Lemma sign_decimal_rounds : signf (ODec 4 1) = RInt I8 0 /\ signf (ODec (-4) 1) = RInt I8 0 /\ signf (ODec 5 1) = RInt I8 1.
+Proof. repeat split; vm_compute; reflexivity. Qed.
